@@ -76,7 +76,17 @@ type Path struct {
 	mapOrder  bool
 	ranges    map[string][2]int64
 	finite    map[int]bool // term ids of BV64 vars known to be finite floats
+	merge     *mergeCtx
 }
+
+// mergeCtx: a pure callee is run once per outcome of its single symbolic branch and
+// the results are joined with ite (no fork).
+type mergeCtx struct {
+	force bool
+	cond  *Term
+}
+
+type mergeAbort struct{}
 
 type obsVal struct {
 	label string
@@ -307,6 +317,13 @@ func (p *Path) Branch(c *Term) bool {
 	}
 	if v, ok := p.lookupLit(c); ok {
 		return v
+	}
+	if p.merge != nil {
+		if p.merge.cond != nil && p.merge.cond != c {
+			panic(mergeAbort{})
+		}
+		p.merge.cond = c
+		return p.merge.force
 	}
 	if ev := p.nextEvent('b'); ev != nil {
 		side := ev.Val == 1
@@ -683,6 +700,20 @@ func (p *Path) hashWordEq(x, y *Term) (*Term, bool) {
 	if x.IsConst() {
 		x, y = y, x
 	}
+	if x.op == OIte && y.IsConst() {
+		a, oka := p.hashWordEq(x.args[1], y)
+		b, okb := p.hashWordEq(x.args[2], y)
+		if oka || okb {
+			if !oka {
+				a = p.tt().Eq(x.args[1], y)
+			}
+			if !okb {
+				b = p.tt().Eq(x.args[2], y)
+			}
+			return p.tt().Ite(x.args[0], a, b), true
+		}
+		return nil, false
+	}
 	if isHashVar(x) && y.IsConst() {
 		for _, a := range p.apps {
 			if a.h == y {
@@ -690,6 +721,11 @@ func (p *Path) hashWordEq(x, y *Term) (*Term, bool) {
 			}
 		}
 		p.flags["hash-vs-literal"] = true
+		// tell the solver too (the comparison is folded here, but orderings are not)
+		ne := p.tt().Not(p.tt().Eq(x, y))
+		if v, ok := p.lits[ne.args[0].id]; !ok || v {
+			p.addPC(ne)
+		}
 		return p.tt().F, true
 	}
 	return nil, false
